@@ -1,17 +1,17 @@
-\* single site, all operations, one test: exhaustive check of the design-level properties
+\* two sites, two tests: interleavings of evaluations over the sites (C14), aborts across sites (C07, C02)
 SPECIFICATION Spec
 CONSTANTS
-  NAtoms = 3
-  Keys = {1, 2}
-  SiteOps = {"eq", "le", "ge", "in", "dict", "none"}
-  ChildOps = {"deq", "dle"}
-  WrongOps = {"eq", "in"}
-  ChgOK = TRUE
-  NSites = 1
-  NTests = 1
+  NAtoms = 2
+  Keys = {1}
+  SiteOps = {"eq", "le", "in", "dict"}
+  ChildOps = {"deq"}
+  WrongOps = {}
+  ChgOK = FALSE
+  NSites = 2
+  NTests = 2
   MaxStmts = 2
   MaxRuns = 1
-  MaxSrcLen = 2
+  MaxSrcLen = 1
   Mode = "mc"
   Stride = 1
   Offset = 0
